@@ -13,6 +13,23 @@ CLAIMED = {
              text='Same traces as C02; TLC checks per event that no feasible final contains an incompatible pair, that every option with an admissible completion is offered (no over-pruning, against the reference enumeration of all assignments computed by TLC), that forced choices had no other viable option, that infeasible is reported only without admissible extension, and at the end that every admissible architecture was reached.',
              ref='3 C06', note='as C02'),
 }
+PROC_NOTE = 'DSGSem/Processor are my reading of docs/theory.md and the property text; build.py/project.py/drive_proc.py trusted as translators/recorders; excluded input classes: incompatible pair joined by a direct derivation edge, sibling choices sharing an option; violations on inputs matching a committed known finding (same clause + structural trigger) are attributed to it; TLC + CommunityModules trusted'
+def _proc(text, tech):
+    return dict(cat='model_checking', tech=tech, text=text, ref='3', note=PROC_NOTE)
+CLAIMED.update({
+ 'C01': _proc('Both encoders are built for every generated description (bounded-exhaustive <=5 nodes subset, theory-page example, seeded random with design-variable nodes); every vector of the declared space is decoded (sampled beyond a cap) and TLC checks each recorded result against the decode contract of Processor.tla: final, feasible, node/edge set equal to the closure of some admissible assignment computed by TLC, stored DV values in domain; construction/decoding may only fail when the admissible set is empty.',
+              'TLA+ decode contract (Processor.tla over DSGSem) + total TLC trace monitor (Mon_Proc) on whole-declared-space decode traces of the real GraphProcessor'),
+ 'C03': _proc('Same traces: TLC checks range, Describes (active selection variable <-> wired option in a matching admissible architecture, DV entries = stored values) and, through history variables over the trace, idempotence of the corrected vector (it is decoded again with and without materialising), one architecture per corrected vector and one corrected vector per architecture.',
+              'TLA+ Describes/idempotence/injectivity history variables in Mon_Proc on decode + re-decode traces'),
+ 'C04': _proc('Complete encoder: get_all_discrete_x, counts and ratio are recorded and every row decoded; TLC checks rows are in range, canonical, pairwise distinct, fixed points with the listed activeness, denote pairwise distinct architectures, coincide with the corrected vectors produced by decoding the whole declared space, and that every architecture of the reference enumeration (all option assignments, computed by TLC) is reached; n_valid = rows, n_declared = product, ratio = quotient.',
+              'TLC reference enumeration (SelAdmissible) vs recorded enumeration of the complete encoder, Mon_Proc'),
+ 'C07': _proc('Same traces: active => node exists in a matching admissible architecture; inactive => canonical value; a variable not flagged conditionally active is active in every decoded design; activeness per corrected vector agrees between create=True, create=False, enumeration rows and decodes of uncorrected vectors (history variable).',
+              'TLA+ activeness contract + history variable (corrected vector -> activeness) in Mon_Proc'),
+ 'C14': _proc('Fast encoder forced on every description: soundness clauses of C01, unchanged valid (already corrected) vectors, and at the end of a completely decoded declared space TLC checks that every admissible architecture was reached (same reference set as the complete encoder).',
+              'TLC reference enumeration vs whole-declared-space decode traces of the fast encoder, Mon_Proc'),
+ 'C16': dict(cat='model_checking', tech='spec-as-oracle: Clamp/InDomain/presence rules of Processor.tla evaluated by TLC on decode traces', ref='3 C16', note=PROC_NOTE,
+             text='Descriptions with discrete and continuous DV nodes under permanent and conditional nodes; TLC checks per decode that every present DV node has a value inside its domain, that it equals the clamp of the requested entry, that the corrected vector reports it, and that absent nodes have no value and an inactive canonical entry. (Direct set_des_var_value with out-of-range values: see the C16 extension once built.)'),
+})
 NA = {}
 
 def check_entry(pid):
